@@ -502,6 +502,23 @@ func (v *Verifier) intrinsic(fr *Frame, st *State, full string, fn *types.Func, 
 			v.eng.heapSetRows(st, sh.Elem, ref, []*Term{row})
 			return SliceVal{Sh: sh, Ref: ref, Off: c.Inti(0), Len: n, Cap: n}, true
 		}
+	case "encoding/binary.ReadUvarint":
+		// reads 1..10 bytes from a byte reader; the decoded value is not modelled (fresh)
+		use()
+		v.needIntIdx(pos, "ReadUvarint model")
+		id := v.ifaceIdentity(st, args[0], pos)
+		posH := v.ghostHeap(st, gRdPos)
+		pos0 := c.Select(posH, id)
+		k := c.Fresh("uvarint$n", IntSort)
+		ok := c.Fresh("uvarint$ok", BoolSort)
+		st.assume(c.And(c.ILe(c.Inti(0), k), c.ILe(k, c.Inti(10))))
+		st.assume(c.Implies(ok, c.ILe(c.Inti(1), k)))
+		st.assume(c.ILe(c.IAdd(pos0, k), c.App("ghost$rdLen", IntSort, id)))
+		v.setGhostHeap(st, gRdPos, c.Store(posH, id, c.IAdd(pos0, k)))
+		res := fn.Type().(*types.Signature).Results()
+		val := Scalar{c.Fresh("uvarint", BVSort(64)), types.Typ[types.Uint64]}
+		err := OpaqueVal{Sh: v.eng.shapeOf(res.At(1).Type()), ID: c.Fresh("err", IntSort), Nil: ok}
+		return TupleVal{[]Val{val, err}}, true
 	case "bytes.NewReader":
 		// a reader over b: the input stream of its identity is the content of b (ghost inByte), exact length
 		use()
@@ -607,6 +624,17 @@ func (v *Verifier) ptrIdentity(recv Val, pos token.Pos) *Term {
 		}
 	}
 	panic(unsupportedf(pos, "object has no identity"))
+}
+
+// ifaceIdentity: identity of the object behind an interface value (or a plain pointer/opaque value).
+func (v *Verifier) ifaceIdentity(st *State, a Val, pos token.Pos) *Term {
+	switch o := a.(type) {
+	case OpaqueVal:
+		return o.ID
+	case PtrVal:
+		return v.ptrIdentity(o, pos)
+	}
+	panic(unsupportedf(pos, "interface argument has no identity (%T)", a))
 }
 
 // havocRange replaces rows of sv.Ref in [lo, hi) by unknown values.
